@@ -16,6 +16,15 @@
                      "converted to the field's type" = decode_weak of the configured subtree, on the
                        modelled fragment of mapstructure;
                      a literal in a value tag reaches a string field as written.
+   [cpre]        : Some p = the component was registered with p already in the bound field (a constructor
+                   default; the harness fills the field before App.Run, for every route) and [o_fresh] is what
+                   the same binding (prefix route; for a literal the value route) leaves in a ZERO component.
+                   The unchanged code decodes into a fresh value of the field's type and then replaces the
+                   field (reflectx.SetValue; mapstructure's ZeroFields = false therefore never sees the old
+                   contents): a bound value is independent of p, and when nothing is bound (the key is absent /
+                   the tag text is empty, with required=false) the field keeps p.  [keep_default] states the
+                   second half on top of the routes of Model/Values.v; the oracle demands the first half
+                   without the model: pre-filled and fresh component end with the same field.
    [cfix]        : which variant of the value path the tree has (false = unchanged, true = fixes/D-C17g.diff applied),
                    read off the running code by the driver's facts probe; it selects the model's fx parameter.
    [kf_class]    : the known-finding classes KF-C17a..i as predicates over the configured value /
@@ -44,7 +53,9 @@ Record case := mkCase {
   cfix : bool;          (* the tree splices float64 in plain digits (D-C17g), read off the running code *)
   o_prefix : obs;
   o_value : obs;
-  o_prop : obs
+  o_prop : obs;
+  cpre : option fval;   (* the field's contents when the component was registered (None = zero value) *)
+  o_fresh : obs         (* pre-filled cases: prefix route (literal: value route) on a zero component *)
 }.
 
 (* ---- equality of field values ---------------------------------------------------------------- *)
@@ -99,13 +110,8 @@ Definition obs_of (r : res fval) : obs :=
 Definition cfg_case (c : case) : bytes -> cval := cfg_of [(ckey c, cv c)].
 Definition args_of (c : case) : bytes := if creq c then [] else lit_req_false.
 
-Definition model_prefix (c : case) : res fval := bind_prefix_r (creq c) (cv c) (cT c).
 Definition value_tag (c : case) : bytes :=
   match ckind c with O => ph (ckey c) ++ args_of c | _ => ctext c end.
-Definition model_value (c : case) : option (res fval) :=
-  bind_tag_value (cfix c) (cfg_case c) (creq c) (tag_value_part (value_tag c)) (cT c).
-Definition model_prop (c : case) : option (res fval) :=
-  bind_prop (cfix c) (cfg_case c) (creq c) (ckey c ++ args_of c) (cT c).
 
 (* the text the binding stage of the value route sees *)
 Definition value_text (c : case) : option bytes :=
@@ -115,6 +121,27 @@ Definition value_text (c : case) : option bytes :=
   | Some _ => match replace_all_content b_dollar (resolve (cfix c) (cfg_case c)) (Some repo_budget) O t with
               | Done x => Some x | _ => None end
   end.
+
+(* a route that binds nothing (and does not fail: required=false) leaves the field as it was registered:
+   the zero value of Model/Values.v's routes is the contents of a zero component; a pre-filled one keeps p.
+   Prefix route: Configure.Get returned nil.  Value / prop route: the tag text is empty after the ${} stage. *)
+Definition keep_default (c : case) (nothing_bound : bool) (r : res fval) : res fval :=
+  match cpre c, r with
+  | Some p, Ok _ => if nothing_bound then Ok p else r
+  | _, _ => r
+  end.
+Definition prefix_binds_nothing (c : case) : bool := match cv c with VNull => true | _ => false end.
+Definition value_binds_nothing (c : case) : bool :=
+  match value_text c with Some [] => true | _ => false end.
+
+Definition model_prefix (c : case) : res fval :=
+  keep_default c (prefix_binds_nothing c) (bind_prefix_r (creq c) (cv c) (cT c)).
+Definition model_value (c : case) : option (res fval) :=
+  option_map (keep_default c (value_binds_nothing c))
+    (bind_tag_value (cfix c) (cfg_case c) (creq c) (tag_value_part (value_tag c)) (cT c)).
+Definition model_prop (c : case) : option (res fval) :=
+  option_map (keep_default c (value_binds_nothing c))
+    (bind_prop (cfix c) (cfg_case c) (creq c) (ckey c ++ args_of c) (cT c)).
 
 (* ---- where the model is claimed faithful -------------------------------------------------------- *)
 
@@ -144,12 +171,21 @@ Definition check_case (c : case) : bool :=
 
 Definition is_string_type (T : ftype) : bool := match T with TString => true | _ => false end.
 
+(* "exactly the configured value converted to the field's type": what the field held before plays no part.
+   Whenever something is bound, the pre-filled component ends with the field the zero component ends with. *)
+Definition prefill_ok (c : case) (nothing_bound : bool) (o : obs) : bool :=
+  match cpre c with
+  | None => true
+  | Some _ => nothing_bound || obs_eqb o (o_fresh c)
+  end.
+
 Definition oracle_key (c : case) : bool :=
   obs_eqb (o_prefix c) (o_value c) && obs_eqb (o_value c) (o_prop c)
   && match embed (cT c) (cv c) with
      | Some f => obs_eqb (o_prefix c) (OOk f)
      | None => true
      end
+  && prefill_ok c (prefix_binds_nothing c) (o_prefix c)
   && route_ok (prefix_modelled c) (Some (model_prefix c)) (o_prefix c).
 
 (* literal: as written into string fields; elsewhere the written text converted to the field's type *)
@@ -161,10 +197,18 @@ Definition oracle_lit (c : case) : bool :=
      | _ => obs_eqb (o_value c) (OOk (FStr t))
      end
    else true)
+  && prefill_ok c (value_binds_nothing c) (o_value c)
   && route_ok (value_modelled c) (model_value c) (o_value c).
 
 Definition oracle_case (c : case) : bool :=
   match ckind c with O => oracle_key c | _ => oracle_lit c end.
+
+(* the pre-fill half of the oracle alone: no known-finding class is about what the field held before *)
+Definition prefill_part (c : case) : bool :=
+  match ckind c with
+  | O => prefill_ok c (prefix_binds_nothing c) (o_prefix c)
+  | _ => prefill_ok c (value_binds_nothing c) (o_value c)
+  end.
 
 (* ---- known-finding classes ------------------------------------------------------------------------ *)
 
@@ -276,9 +320,10 @@ Definition mismatches (cs : list case) : list nat :=
   map cid (filter (fun c => negb (check_case c)) cs).
 Definition violations (cs : list case) : list nat :=
   map cid (filter (fun c => negb (oracle_case c)) cs).
-(* (case id, class) of every failing case that lies in a class and on which the model agrees *)
+(* (case id, class) of every failing case that lies in a class, on which the model agrees, and whose pre-filled
+   field (if any) ended as the zero component's did *)
 Definition known (cs : list case) : list nat :=
-  flat_map (fun c => if negb (oracle_case c) && check_case c
+  flat_map (fun c => if negb (oracle_case c) && check_case c && prefill_part c
                      then match kf_class c with O => [] | k => [cid c; k] end
                      else []) cs.
 Definition unmodelled (cs : list case) : list nat :=
@@ -304,6 +349,23 @@ Definition in_embed (c : case) : bool :=
 (* the theorem's prediction, checked on the implementation: inside [safe] the three routes bound the same field *)
 Definition safe_agrees (c : case) : bool :=
   if in_safe c then obs_eqb (o_prefix c) (o_value c) && obs_eqb (o_value c) (o_prop c) else true.
+(* pre-filled cases in which something was bound over a NON-ZERO field of slice / map / struct kind (at any depth
+   below pointers): [pre-filled; ... bound ok; ... and the field ended different from what it held; nothing bound and
+   Run ok (the default stays); bound ok inside the modelled fragment of the prefix route] *)
+Definition is_prefilled (c : case) : bool := match cpre c with Some _ => true | None => false end.
+Definition replaced (c : case) : bool :=
+  match cpre c, o_prefix c with
+  | Some p, OOk f => negb (fval_eqb p f)
+  | _, _ => false
+  end.
+Definition prefill_counts (cs : list case) : list nat :=
+  [length (filter is_prefilled cs);
+   length (filter (fun c => is_prefilled c && is_ok (o_prefix c) && negb (prefix_binds_nothing c)) cs);
+   length (filter (fun c => replaced c && negb (prefix_binds_nothing c)) cs);
+   length (filter (fun c => is_prefilled c && prefix_binds_nothing c && is_ok (o_prefix c)) cs);
+   length (filter (fun c => is_prefilled c && is_ok (o_prefix c) && negb (prefix_binds_nothing c)
+                            && prefix_modelled c) cs)].
+
 Definition domain_counts (cs : list case) : list nat :=
   [length (filter in_safe cs); length (filter in_embed cs);
    length (filter (fun c => in_safe c && is_ok (o_prefix c)) cs);
